@@ -2,6 +2,8 @@ import AkVerif.Lemmas.GhistRepos
 import AkVerif.Lemmas.GhistElig
 import AkVerif.Lemmas.GhistReport
 import AkVerif.Lemmas.GhistPar
+import AkVerif.Lemmas.GhistIncl
+import AkVerif.Lemmas.GhistBnAll
 /-!
 # C07 — component builds are reported at the first parent build that ships them
 
@@ -406,6 +408,326 @@ example : sortRepos [4, 0, 2] (fun i => if i = 0 then [2, 4, 9] else if i = 2 th
 example : sortRepos [0, 2] (fun i => if i = 0 then [2] else [0]) = .error .valueError := by decide
 example : sortRepos [3] (fun _ => [3]) = .error .valueError := by decide
 
+/-! ## included_at at specification level on the parent side
+
+`pinRb h comp gC e` is the reported build of the component that the version pinned in commit `e` names (through the
+component's `bn_map`); `RbAnc gC x t` — the version `t` contains the component build `x`.  For the `j`-th branch `b`
+of the parent (`rb` its result), under the property's quantifier for that branch:
+* `hpin`  — every eligible commit of the branch (tagged or head, new in the branch) pins a version of the component
+            that names a build known to the component's `bn_map`;
+* `hmono` — along git ancestry the pinned version never decreases, read as containment. -/
+
+section
+variable (comps : List (Nat × Graph Bumps)) (h : Hist Pins) (hT : h.Topo) (g : Graph Bumps)
+variable (hg : rgraph h (mkPlug comps) = .ok g)
+variable (j : Nat) (b : Branch) (rb : RBranch Bumps)
+variable (hb : (branchesOf h)[j]? = some b) (hrb : g.all[j]? = some rb)
+variable (comp : Nat) (gC : Graph Bumps) (hcomp : ∀ g', (comp, g') ∈ comps → g' = gC) (hin : (comp, gC) ∈ comps)
+variable (hpin : ∀ e', SpecBuild h ((branchesOf h).take j) b e' → ∃ t, pinRb h comp gC e' = some t)
+variable (hmono : ∀ e1 e2, SpecBuild h ((branchesOf h).take j) b e1 → SpecBuild h ((branchesOf h).take j) b e2 →
+  Anc h e1 e2 → ∀ t1 t2, pinRb h comp gC e1 = some t1 → pinRb h comp gC e2 = some t2 → RbAnc gC t1 t2)
+include hT hg hb hrb hcomp hin hpin
+
+/-- the bump of the component recorded in a reported build names the version pinned in the build's commit -/
+theorem reported_bump (bx : RB Bumps) (hbx : bx ∈ rb.rbuilds) (ex : Nat) (hex : BuildAt g.rcs bx ex) :
+    SpecBuild h ((branchesOf h).take j) b ex ∧
+    ∃ bump t, bx.bumps.lookup comp = some bump ∧ bump.toRb = some t ∧ pinRb h comp gC ex = some t := by
+  have hsem := ((rgraph_sem hT hg).2 j b rb hb hrb).1
+  obtain ⟨_, rc0, hrc0, hspec, _⟩ := hsem.buildSpec bx hbx (by rw [hex.1]; rfl)
+  obtain ⟨hrcm, rc1, hrc1, hce⟩ := hex
+  rw [hrc0] at hrc1; cases hrc1
+  rw [hce] at hspec
+  refine ⟨hspec, ?_⟩
+  obtain ⟨t, ht⟩ := hpin ex hspec
+  have hbg : bx ∈ g.builds :=
+    (rgraph_bumpsOk hT hg).2 rb (List.mem_of_getElem? hrb) bx hbx (by rw [hrcm]; rfl)
+  obtain ⟨rc, cm, pbs, h1, h2, _, h4⟩ := (rgraph_bumpsOk hT hg).1 bx hbg
+  rw [hrc0] at h1; cases h1
+  rw [hce] at h2
+  simp only [pinRb, h2] at ht
+  cases hv : cm.pins.lookup comp with
+  | none => rw [hv] at ht; cases ht
+  | some v =>
+    rw [hv] at ht
+    simp only [mkPlug] at h4
+    obtain ⟨bump, h5, h6, _⟩ := bump_of_pin hcomp hin h4 hv ht
+    refine ⟨bump, t, h5, h6, ?_⟩
+    simp only [pinRb, h2, hv, ht]
+
+/-- an eligible commit that is not reported pins the same component build as a reported build of the branch properly
+below it (its bump is trivial) -/
+theorem skipped_version (e' : Nat) (hspec' : SpecBuild h ((branchesOf h).take j) b e')
+    (hnr : ¬ ∃ bx ∈ rb.rbuilds, BuildAt g.rcs bx e') (t' : Nat) (hpe' : pinRb h comp gC e' = some t') :
+    ∃ pb ∈ rb.rbuilds, ∃ ep, BuildAt g.rcs pb ep ∧ ep ≠ e' ∧ Anc h ep e' ∧ pinRb h comp gC ep = some t' := by
+  have hA := reported_bump comps h hT g hg j b rb hb hrb comp gC hcomp hin hpin
+  rcases rgraph_skip hT hg j b rb hb hrb e' hspec' with hrep | ⟨_, hsk⟩
+  · exact absurd hrep hnr
+  · have hrel : (comp, gC) ∈ sortBy (fun a b : Nat × Graph Bumps => decide (a.1 < b.1)) (relevantComps comps) := by
+      apply (mem_sortBy _ _ _).mpr
+      simp only [relevantComps, List.mem_filter]
+      refine ⟨hin, ?_⟩
+      have := pinRb_bnMap_ne hpe'
+      cases hbm : gC.bnMapAll with
+      | nil => exact absurd hbm this
+      | cons y ys => simp
+    rcases hsk with ⟨hrelf, _⟩ | ⟨cm', pbs, bumps, hcm', _, hpbs, _, hmk, hnt⟩
+    · simp only [mkPlug, Bool.not_eq_eq_eq_not, Bool.not_false] at hrelf
+      have hemp : sortBy (fun a b : Nat × Graph Bumps => decide (a.1 < b.1)) (relevantComps comps) = [] := by
+        simpa using hrelf
+      rw [hemp] at hrel; cases hrel
+    · simp only [pinRb, hcm'] at hpe'
+      cases hv : cm'.pins.lookup comp with
+      | none => rw [hv] at hpe'; cases hpe'
+      | some v =>
+        rw [hv] at hpe'
+        simp only [mkPlug] at hmk hnt
+        obtain ⟨bump', h3, h4, h5⟩ := bump_of_pin hcomp hin hmk hv hpe'
+        have htriv : bump'.trivial = true := by
+          cases hct : bump'.trivial with
+          | true => rfl
+          | false =>
+            have : (bumps.any fun cb => !cb.2.trivial) = true :=
+              List.any_eq_true.mpr ⟨(comp, bump'), lookup_some_mem h3, by simp [hct]⟩
+            rw [this] at hnt; cases hnt
+        simp only [Bump.trivial, h4] at htriv
+        have hin' : t' ∈ bump'.fromRbs := by simpa using htriv
+        rw [h5, mem_fromSet] at hin'
+        obtain ⟨pbb, hpbb, b0, hb0, hcase⟩ := hin'
+        obtain ⟨pb, hpb, rfl⟩ := List.mem_map.mp hpbb
+        obtain ⟨⟨hpbr, hpbc⟩, rcp, hrcp, hnep, hancp⟩ := hpbs pb hpb
+        have hbap : BuildAt g.rcs pb rcp.commit := ⟨hpbc, rcp, hrcp, rfl⟩
+        obtain ⟨_, bumpp, tp, h6, h7, h8⟩ := hA pb hpbr rcp.commit hbap
+        rw [hb0] at h6; cases h6
+        rcases hcase with h9 | ⟨h9, _⟩
+        · rw [h7] at h9; cases h9
+          exact ⟨pb, hpbr, rcp.commit, hbap, hnep, hancp, h8⟩
+        · rw [h7] at h9; cases h9
+
+end
+
+section
+variable (comps : List (Nat × Graph Bumps)) (h : Hist Pins) (hT : h.Topo) (g : Graph Bumps)
+variable (hg : rgraph h (mkPlug comps) = .ok g)
+variable (j : Nat) (b : Branch) (rb : RBranch Bumps)
+variable (hb : (branchesOf h)[j]? = some b) (hrb : g.all[j]? = some rb)
+variable (comp : Nat) (gC : Graph Bumps) (hcomp : ∀ g', (comp, g') ∈ comps → g' = gC) (hin : (comp, gC) ∈ comps)
+variable (hpin : ∀ e', SpecBuild h ((branchesOf h).take j) b e' → ∃ t, pinRb h comp gC e' = some t)
+variable (hmono : ∀ e1 e2, SpecBuild h ((branchesOf h).take j) b e1 → SpecBuild h ((branchesOf h).take j) b e2 →
+  Anc h e1 e2 → ∀ t1 t2, pinRb h comp gC e1 = some t1 → pinRb h comp gC e2 = some t2 → RbAnc gC t1 t2)
+include hT hg hb hrb hcomp hin hpin hmono
+
+/-- **partial** (C07.included_first + included_only_first, specification level on the parent side) — a reported
+build `bd` of the branch, at commit `e`, registers the component build `x` exactly when the version pinned in `e`
+contains `x` and the version pinned in no other eligible commit of the branch (tagged or head, new in the branch —
+reported or not) that is a proper git ancestor of `e` contains it: `bd` is the first build of the branch that ships
+`x`, and no later build registers it again.
+Missing for the full statement: what `RbAnc gC` / the component's `bn_map` mean in the component's git history (the
+component side: for one release line, containment of reported builds = git ancestry; `parent_builds_nearest` is the
+main ingredient and holds for every repository, the `bn_map` part is not proved). -/
+theorem included_first_spec_partial (bd : RB Bumps) (hbd : bd ∈ rb.rbuilds) (e : Nat) (hbe : BuildAt g.rcs bd e)
+    (hbn : bd.bn ≠ fakeNM) (repo : Nat) (l : List Reg) (hl : regsOfBuild repo rb.name comp gC bd = .ok l) (x : Nat) :
+    (⟨comp, x, repo, rb.name, bd.bn⟩ : Reg) ∈ l ↔
+      ∃ t, pinRb h comp gC e = some t ∧ RbAnc gC x t ∧
+        ∀ e', SpecBuild h ((branchesOf h).take j) b e' → e' ≠ e → Anc h e' e →
+          ∀ t', pinRb h comp gC e' = some t' → ¬ RbAnc gC x t' := by
+  have hrbm : rb ∈ g.all := List.mem_of_getElem? hrb
+  have hA := reported_bump comps h hT g hg j b rb hb hrb comp gC hcomp hin hpin
+  obtain ⟨hspece, bump, t, hb1, hb2, hpe⟩ := hA bd hbd e hbe
+  -- the hypotheses of the theorem about reported builds
+  have hpin' : ∀ bx ∈ rb.rbuilds, ∀ ex, BuildAt g.rcs bx ex →
+      ∃ bump t, bx.bumps.lookup comp = some bump ∧ bump.toRb = some t := by
+    intro bx hbx ex hex
+    obtain ⟨_, bump', t', h1, h2, _⟩ := hA bx hbx ex hex
+    exact ⟨bump', t', h1, h2⟩
+  have hmono' : ∀ bp ∈ rb.rbuilds, ∀ bq ∈ rb.rbuilds, ∀ ep eq, BuildAt g.rcs bp ep → BuildAt g.rcs bq eq →
+      Anc h ep eq → ∀ bumpp tp bumpq tq, bp.bumps.lookup comp = some bumpp → bumpp.toRb = some tp →
+        bq.bumps.lookup comp = some bumpq → bumpq.toRb = some tq → RbAnc gC tp tq := by
+    intro bp hbp bq hbq ep eq hep heq hanc bumpp tp bumpq tq h1 h2 h3 h4
+    obtain ⟨hsp, bp', tp', h5, h6, h7⟩ := hA bp hbp ep hep
+    obtain ⟨hsq, bq', tq', h8, h9, h10⟩ := hA bq hbq eq heq
+    rw [h1] at h5; cases h5
+    rw [h2] at h6; cases h6
+    rw [h3] at h8; cases h8
+    rw [h4] at h9; cases h9
+    exact hmono ep eq hsp hsq hanc tp tq h7 h10
+  rw [included_first_reported_partial comps h hT g hg rb hrbm comp gC hpin' hmono' bd hbd e hbe hbn bump t hb1 hb2
+    repo l hl x]
+  constructor
+  · rintro ⟨h1, h2⟩
+    refine ⟨t, hpe, h1, ?_⟩
+    intro e' hspec' hne hanc t' hpe' hcontra
+    -- `e'` is reported, or it pins the same build as a reported build below it
+    classical
+    by_cases hrep : ∃ bx ∈ rb.rbuilds, BuildAt g.rcs bx e'
+    · obtain ⟨bx, hbx, hbex⟩ := hrep
+      obtain ⟨_, bump', t'', h3, h4, h5⟩ := hA bx hbx e' hbex
+      rw [hpe'] at h5; cases h5
+      exact h2 bx hbx e' hbex hne hanc bump' t' h3 h4 hcontra
+    · obtain ⟨pb, hpbr, ep, hbap, hnep, hancp, hpep⟩ :=
+        skipped_version comps h hT g hg j b rb hb hrb comp gC hcomp hin hpin e' hspec' hrep t' hpe'
+      obtain ⟨_, bumpp, tp, h6, h7, h8⟩ := hA pb hpbr ep hbap
+      rw [hpep] at h8; cases h8
+      have hlt1 := hancp.le hT
+      have hlt2 := hanc.le hT
+      refine h2 pb hpbr ep hbap ?_ (hancp.trans hanc) bumpp t' h6 h7 hcontra
+      intro heq
+      have : e' = e := by
+        have h9 : e ≤ e' := by rw [← heq]; exact hlt1
+        omega
+      exact hne this
+  · rintro ⟨t0, hpe0, h1, h2⟩
+    rw [hpe] at hpe0; cases hpe0
+    refine ⟨h1, ?_⟩
+    intro bp hbp ep hbep hne hanc bumpp tp hp1 hp2
+    obtain ⟨hsp, bump', t', h3, h4, h5⟩ := hA bp hbp ep hbep
+    rw [hp1] at h3; cases h3
+    rw [hp2] at h4; cases h4
+    exact h2 ep hsp hne hanc tp h5
+
+/-- **partial** (C07.included_first, existence) — if the version pinned in some eligible commit `e0` of the branch
+contains the component build `x`, there is a *reported* build of the branch, at an eligible commit `e` below (or at)
+`e0`, whose version contains `x` while no eligible commit properly below `e` does: the first build that ships `x` is
+always reported (`bump_build_reported`), so by `included_first_spec_partial` `x` is registered there and only there.
+Missing: as for `included_first_spec_partial`. -/
+theorem included_first_exists_partial (x : Nat) : ∀ (e0 : Nat), SpecBuild h ((branchesOf h).take j) b e0 →
+    ∀ t0, pinRb h comp gC e0 = some t0 → RbAnc gC x t0 →
+    ∃ bd ∈ rb.rbuilds, ∃ e, BuildAt g.rcs bd e ∧ Anc h e e0 ∧ ∃ t, pinRb h comp gC e = some t ∧ RbAnc gC x t ∧
+      ∀ e', SpecBuild h ((branchesOf h).take j) b e' → e' ≠ e → Anc h e' e →
+        ∀ t', pinRb h comp gC e' = some t' → ¬ RbAnc gC x t' := by
+  have hA := reported_bump comps h hT g hg j b rb hb hrb comp gC hcomp hin hpin
+  intro e0
+  induction e0 using Nat.strongRecOn with
+  | _ e0 ih =>
+    intro hspec0 t0 hp0 hx0
+    classical
+    by_cases hmin : ∀ e', SpecBuild h ((branchesOf h).take j) b e' → e' ≠ e0 → Anc h e' e0 →
+        ∀ t', pinRb h comp gC e' = some t' → ¬ RbAnc gC x t'
+    · -- `e0` is minimal: it must be reported
+      by_cases hrep : ∃ bx ∈ rb.rbuilds, BuildAt g.rcs bx e0
+      · obtain ⟨bx, hbx, hbex⟩ := hrep
+        exact ⟨bx, hbx, e0, hbex, .refl _, t0, hp0, hx0, hmin⟩
+      · exfalso
+        obtain ⟨pb, hpbr, ep, hbap, hnep, hancp, hpep⟩ :=
+          skipped_version comps h hT g hg j b rb hb hrb comp gC hcomp hin hpin e0 hspec0 hrep t0 hp0
+        obtain ⟨hsp, _⟩ := hA pb hpbr ep hbap
+        exact hmin ep hsp hnep hancp t0 hpep hx0
+    · -- an eligible commit properly below contains `x` already: descend
+      have : ∃ e', SpecBuild h ((branchesOf h).take j) b e' ∧ e' ≠ e0 ∧ Anc h e' e0 ∧
+          ∃ t', pinRb h comp gC e' = some t' ∧ RbAnc gC x t' := by
+        apply Classical.byContradiction
+        intro hno
+        apply hmin
+        intro e' h1 h2 h3 t' h4 h5
+        exact hno ⟨e', h1, h2, h3, t', h4, h5⟩
+      obtain ⟨e', h1, h2, h3, t', h4, h5⟩ := this
+      have hlt : e' < e0 := by
+        have := h3.le hT
+        rcases Nat.lt_or_ge e' e0 with h6 | h6
+        · exact h6
+        · exact absurd (by omega) h2
+      obtain ⟨bd, hbd, e, h6, h7, h8⟩ := ih e' hlt h1 t' h4 h5
+      exact ⟨bd, hbd, e, h6, h7.trans h3, h8⟩
+
+end
+
+/-! ## included_at in git terms, for a component release line
+
+The component's history `hC` (graph `gC`), its `jC`-th branch `bC` (result `rbC`); the parent's history `h` (graph
+`g`, built with the component graphs `comps ∋ (comp, gC)`), its `j`-th branch `b` (result `rb`). -/
+
+/-- the eligible parent commit `e` pins the version of the component that is a build tag of the component commit
+`cv` — a commit of the component branch `bC` (first read there) with a reported component build at or below it -/
+def PinsTo (h hC : Hist Pins) (comp : Nat) (gC : Graph Bumps) (preC : List Branch) (bC : Branch)
+    (rbC : RBranch Bumps) (e cv : Nat) : Prop :=
+  ∃ cm v cmv, h.commits[e]? = some cm ∧ cm.pins.lookup comp = some v ∧ hC.commits[cv]? = some cmv ∧
+    (⟨v.1, v.2.1, v.2.2, v.2.2⟩ : BN) ∈ cmv.tags ∧ SpecBuild hC preC bC cv ∧
+    ∃ bt ∈ rbC.rbuilds, ∃ et, BuildAt gC.rcs bt et ∧ Anc hC et cv
+
+section
+variable (comps : List (Nat × Graph Bumps)) (h : Hist Pins) (hT : h.Topo) (g : Graph Bumps)
+variable (hg : rgraph h (mkPlug comps) = .ok g)
+variable (j : Nat) (b : Branch) (rb : RBranch Bumps)
+variable (hb : (branchesOf h)[j]? = some b) (hrb : g.all[j]? = some rb)
+variable (comp : Nat) (gC : Graph Bumps) (hcomp : ∀ g', (comp, g') ∈ comps → g' = gC) (hin : (comp, gC) ∈ comps)
+variable (hC : Hist Pins) (hTC : hC.Topo) (huC : TagsUnique hC) (plC : Plug Pins Bumps)
+variable (hgC : rgraph hC plC = .ok gC) (hlenC : gC.rcs.length ≤ Gen.Ghist.fakeStart)
+variable (jC : Nat) (bC : Branch) (rbC : RBranch Bumps)
+variable (hbC : (branchesOf hC)[jC]? = some bC) (hrbC : gC.all[jC]? = some rbC)
+variable (hpins : ∀ e', SpecBuild h ((branchesOf h).take j) b e' →
+  ∃ cv, PinsTo h hC comp gC ((branchesOf hC).take jC) bC rbC e' cv)
+variable (hmonoC : ∀ e1 e2, SpecBuild h ((branchesOf h).take j) b e1 → SpecBuild h ((branchesOf h).take j) b e2 →
+  Anc h e1 e2 → ∀ cv1 cv2, PinsTo h hC comp gC ((branchesOf hC).take jC) bC rbC e1 cv1 →
+    PinsTo h hC comp gC ((branchesOf hC).take jC) bC rbC e2 cv2 → Anc hC cv1 cv2)
+include hT hg hb hrb hcomp hin hTC huC hgC hlenC hbC hrbC hpins hmonoC
+
+/-- **partial** (C07.included_first + included_only_first in git terms, one component release line) — a reported
+build `bd` of the parent branch, at commit `e` which pins the component version tagged on component commit `cv`,
+has the reported component build at commit `ex` (same component branch) in its registrations exactly when `ex` is a
+git ancestor of (or equal to) `cv` and of no component commit pinned by an eligible parent commit properly below `e`:
+the component build is recorded at exactly the first build of the parent branch whose pinned version contains it.
+Hypotheses = the property's quantifier for this branch pair: every eligible parent commit pins a build tag of a
+commit of the component branch that has a reported build at or below it (`hpins`), the pinned commit never goes back
+along git ancestry (`hmonoC`), component build numbers are unique to their commits (`huC`), fewer than 10^9 report
+commits (`hlenC`).
+Missing for the full statement: pins into several component release lines (the code links component builds inside
+one branch only — the case the statement does not spell out), and eligible parent commits whose pinned version
+contains no reported component build at all. -/
+theorem included_first_git_partial (bd : RB Bumps) (hbd : bd ∈ rb.rbuilds) (e : Nat) (hbe : BuildAt g.rcs bd e)
+    (hbn : bd.bn ≠ fakeNM) (cv : Nat) (hpe : PinsTo h hC comp gC ((branchesOf hC).take jC) bC rbC e cv)
+    (bx : RB Bumps) (hbx : bx ∈ rbC.rbuilds) (ex : Nat) (hex : BuildAt gC.rcs bx ex)
+    (repo : Nat) (l : List Reg) (hl : regsOfBuild repo rb.name comp gC bd = .ok l) :
+    (⟨comp, bx.iid, repo, rb.name, bd.bn⟩ : Reg) ∈ l ↔
+      Anc hC ex cv ∧ ∀ e', SpecBuild h ((branchesOf h).take j) b e' → e' ≠ e → Anc h e' e →
+        ∀ cv', PinsTo h hC comp gC ((branchesOf hC).take jC) bC rbC e' cv' → ¬ Anc hC ex cv' := by
+  -- what a pin means for `pinRb`
+  have hpinrb : ∀ e' cv', PinsTo h hC comp gC ((branchesOf hC).take jC) bC rbC e' cv' →
+      ∃ t, pinRb h comp gC e' = some t ∧
+        (∀ by' ∈ rbC.rbuilds, ∀ ey, BuildAt gC.rcs by' ey → (RbAnc gC by'.iid t ↔ Anc hC ey cv')) ∧
+        ∃ bi ∈ rbC.rbuilds, bi.iid = t ∧ ∃ ei, BuildAt gC.rcs bi ei ∧ Anc hC ei cv' := by
+    rintro e' cv' ⟨cm, v, cmv, h1, h2, h3, h4, h5, bt, hbt, et, hbet, hanc⟩
+    obtain ⟨en, hen, _⟩ := (version_contains_iff hTC huC hgC hlenC hbC hrbC h3 h4 h5 hbt hbet).mpr hanc
+    refine ⟨en.2, by simp [pinRb, h1, h2, hen], ?_, version_build hTC huC hgC hbC hrbC h3 h4 h5 hen⟩
+    intro by' hby ey hbey
+    rw [← version_contains_iff hTC huC hgC hlenC hbC hrbC h3 h4 h5 hby hbey]
+    constructor
+    · intro hr; exact ⟨en, hen, hr⟩
+    · rintro ⟨en', hen', hr⟩; rw [hen] at hen'; cases hen'; exact hr
+  have hpin : ∀ e', SpecBuild h ((branchesOf h).take j) b e' → ∃ t, pinRb h comp gC e' = some t := by
+    intro e' hs
+    obtain ⟨cv', hp⟩ := hpins e' hs
+    obtain ⟨t, ht, _⟩ := hpinrb e' cv' hp
+    exact ⟨t, ht⟩
+  have hmono : ∀ e1 e2, SpecBuild h ((branchesOf h).take j) b e1 → SpecBuild h ((branchesOf h).take j) b e2 →
+      Anc h e1 e2 → ∀ t1 t2, pinRb h comp gC e1 = some t1 → pinRb h comp gC e2 = some t2 → RbAnc gC t1 t2 := by
+    intro e1 e2 hs1 hs2 hanc t1 t2 ht1 ht2
+    obtain ⟨cv1, hp1⟩ := hpins e1 hs1
+    obtain ⟨cv2, hp2⟩ := hpins e2 hs2
+    obtain ⟨t1', h1, _, bi, hbi, hbit, ei, hbei, hei⟩ := hpinrb e1 cv1 hp1
+    obtain ⟨t2', h2, hiff2, _⟩ := hpinrb e2 cv2 hp2
+    rw [ht1] at h1; cases h1
+    rw [ht2] at h2; cases h2
+    rw [← hbit]
+    exact (hiff2 bi hbi ei hbei).mpr (hei.trans (hmonoC e1 e2 hs1 hs2 hanc cv1 cv2 hp1 hp2))
+  rw [included_first_spec_partial comps h hT g hg j b rb hb hrb comp gC hcomp hin hpin hmono bd hbd e hbe hbn
+    repo l hl bx.iid]
+  obtain ⟨t, ht, hifft, _⟩ := hpinrb e cv hpe
+  constructor
+  · rintro ⟨t0, ht0, h1, h2⟩
+    rw [ht] at ht0; cases ht0
+    refine ⟨(hifft bx hbx ex hex).mp h1, ?_⟩
+    intro e' hs' hne hanc cv' hp' hcontra
+    obtain ⟨t', ht', hifft', _⟩ := hpinrb e' cv' hp'
+    exact h2 e' hs' hne hanc t' ht' ((hifft' bx hbx ex hex).mpr hcontra)
+  · rintro ⟨h1, h2⟩
+    refine ⟨t, ht, (hifft bx hbx ex hex).mpr h1, ?_⟩
+    intro e' hs' hne hanc t' ht' hcontra
+    obtain ⟨cv', hp'⟩ := hpins e' hs'
+    obtain ⟨t'', ht'', hifft', _⟩ := hpinrb e' cv' hp'
+    rw [ht'] at ht''; cases ht''
+    exact h2 e' hs' hne hanc cv' hp' ((hifft' bx hbx ex hex).mp hcontra)
+
+end
+
 /-! Non-vacuity of the included_at part: a component whose history has a diamond of reported builds
 (10.20.1 ← 10.20.2, 10.20.3 ← 10.20.4; report commits numbered 0, 2, 1, 3 by the DFS) and a parent that pins 10.20.2
 at build 5.1.1 and 10.20.4 at build 5.1.2: the first build ships 10.20.1 and 10.20.2, the second one only what is
@@ -422,6 +744,13 @@ def exApp : Hist Pins :=
 example : (analyse [⟨0, [2], exApp⟩, ⟨2, [], exLib⟩]).map (fun r => (r.1.map (·.id), r.2)) = .ok ([2, 0],
     [⟨2, 0, 0, "release/5.1".toList, ⟨5, 1, 1, 1⟩⟩, ⟨2, 2, 0, "release/5.1".toList, ⟨5, 1, 1, 1⟩⟩,
      ⟨2, 1, 0, "release/5.1".toList, ⟨5, 1, 2, 2⟩⟩, ⟨2, 3, 0, "release/5.1".toList, ⟨5, 1, 2, 2⟩⟩]) := by
+  decide +kernel
+
+/-- the hypotheses of `included_first_spec_partial` on this example: both eligible commits of the parent branch pin a
+version known to the component's `bn_map` (builds 2 and 3 of the component), and build 3 has build 2 among its parent
+builds (so the later pin contains the earlier one) -/
+example : (rgraph exLib (mkPlug [])).map (fun g =>
+    (pinRb exApp 2 g 0, pinRb exApp 2 g 1, (g.findBuild 3).map (·.parents))) = .ok (some 2, some 3, some [1, 2]) := by
   decide +kernel
 
 end C07
